@@ -145,60 +145,97 @@ structure Response where
   events : List PEv
   deriving Repr, DecidableEq
 
-inductive ReqKind | first | followup | followupStateless
+/-- an input item of a request, as far as the property reads it -/
+inductive Item
+  | user                        -- the prompt / the initial items
+  | followupMsg                 -- the configured follow-up user message
+  | fcall (callId : Str)        -- a function_call item echoed back (stateless history)
+  | foutput (callId : Str)      -- a function_call_output item: the answer to a call
   deriving Repr, DecidableEq
 
 structure Request where
-  kind : ReqKind
-  answers : List Str            -- call ids answered by function_call_output items added by this request
+  hasPrev : Bool                -- carries previous_response_id
+  input : List Item
+  deriving Repr, DecidableEq
+
+/-- one turn: the request that was sent, the calls its response produced (provider order), and
+what was done with them -/
+structure Round where
+  request : Request
+  calls : List Call := []
+  executed : List (Str × Str) := []   -- (call id, tool name) actually run, in order
+  rejected : List (Str × Str) := []   -- answered with a rejection, never run
   deriving Repr, DecidableEq
 
 structure Outcome where
-  requests : List Request
-  executed : List (Str × Str)   -- (call id, tool name) actually run, in order
-  rejected : List (Str × Str)   -- answered with a rejection, never run
+  rounds : List Round
   reason : String
   deriving Repr, DecidableEq
 
+structure Config where
+  stateless : Bool
+  followupMsg : Bool            -- followup_user_message configured
+  enf : Enforcement
+  valid : Request → Bool        -- the schema validation gate (an oracle of the model)
+
 def maxToolCalls : Nat := 32
 
-/-- answer the calls of one response: returns (answered ids, executed, rejected, count, hitMax) -/
+/-- answer the calls of one response: (answered ids, executed, rejected, new count, hit the bound) -/
 def answerCalls (enf : Enforcement) : List Call → Nat → List Str × List (Str × Str) × List (Str × Str) × Nat × Bool
   | [], count => ([], [], [], count, false)
   | c :: cs, count =>
     if count ≥ maxToolCalls then ([], [], [], count, true)
     else
-      let (ans, ex, rj, cnt, hit) := answerCalls enf cs (count + 1)
-      if enf.allows c.name then (c.callId :: ans, (c.callId, c.name) :: ex, rj, cnt, hit)
-      else (c.callId :: ans, ex, (c.callId, c.name) :: rj, cnt, hit)
+      match answerCalls enf cs (count + 1) with
+      | (ans, ex, rj, cnt, hit) =>
+        if enf.allows c.name then (c.callId :: ans, (c.callId, c.name) :: ex, rj, cnt, hit)
+        else (c.callId :: ans, ex, (c.callId, c.name) :: rj, cnt, hit)
 
-def loop (stateless : Bool) (enf : Enforcement) :
-    List Response → Option (List Str) → Bool → Nat → Outcome → Outcome
-  | [], _, _, _, out => { out with reason := "script-exhausted" }
-  | r :: rs, followup, havePrev, count, out =>
-    if count ≥ maxToolCalls then { out with reason := "max_tool_calls_exceeded" } else
+def msgItems (cfg : Config) : List Item := if cfg.followupMsg then [.followupMsg] else []
+
+/-- state between turns -/
+structure LoopSt where
+  followup : Option (List Item) := none   -- tool outputs waiting to be sent
+  havePrev : Bool := false
+  count : Nat := 0
+  history : List Item := [.user]          -- stateless history (initialised with the first input)
+  rounds : List Round := []
+  deriving Repr, DecidableEq
+
+def finish (st : LoopSt) (reason : String) : Outcome := { rounds := st.rounds, reason := reason }
+
+def loop (cfg : Config) : List Response → LoopSt → Outcome
+  | [], st => finish st "script-exhausted"
+  | r :: rs, st =>
+    if st.count ≥ maxToolCalls then finish st "max_tool_calls_exceeded" else
     let mk : Option Request :=
-      match followup with
-      | some answers =>
-        if stateless then some { kind := .followupStateless, answers := answers }
-        else if havePrev then some { kind := .followup, answers := answers } else none
-      | none => some { kind := .first, answers := [] }
+      match st.followup with
+      | some outs =>
+        if cfg.stateless then some { hasPrev := false, input := st.history ++ msgItems cfg }
+        else if st.havePrev then some { hasPrev := true, input := outs ++ msgItems cfg } else none
+      | none => some { hasPrev := false, input := [.user] }
     match mk with
-    | none => { out with reason := "provider_error" }
+    | none => finish st "provider_error"
     | some req =>
-      let out := { out with requests := out.requests ++ [req] }
-      if !r.streamOk then { out with reason := "provider_error" } else
-      let havePrev := havePrev || r.hasResponseId
+      if !cfg.valid req then finish st "invalid_request" else      -- never sent
+      if !r.streamOk then finish { st with rounds := st.rounds ++ [{ request := req }] } "provider_error" else
+      let havePrev := st.havePrev || r.hasResponseId
       let calls := collect r.events
-      if calls.isEmpty then { out with reason := "completed" }
-      else if !havePrev && !stateless then { out with reason := "provider_error" }
+      if calls.isEmpty then finish { st with rounds := st.rounds ++ [{ request := req }] } "completed"
+      else if !havePrev && !cfg.stateless then
+        finish { st with rounds := st.rounds ++ [{ request := req, calls := calls }] } "provider_error"
       else
-        let (ans, ex, rj, cnt, hit) := answerCalls enf calls count
-        let out := { out with executed := out.executed ++ ex, rejected := out.rejected ++ rj }
-        if hit then { out with reason := "max_tool_calls_exceeded" }
-        else loop stateless enf rs (some ans) havePrev cnt out
+        match answerCalls cfg.enf calls st.count with
+        | (ans, ex, rj, cnt, hit) =>
+          let round : Round := { request := req, calls := calls, executed := ex, rejected := rj }
+          let history := if cfg.stateless then st.history ++ calls.map (fun c => Item.fcall c.callId) else st.history
+          if hit then finish { st with rounds := st.rounds ++ [round] } "max_tool_calls_exceeded"
+          else
+            let outs := ans.map Item.foutput
+            loop cfg rs { followup := some outs, havePrev := havePrev, count := cnt,
+                          history := if cfg.stateless then history ++ outs else history,
+                          rounds := st.rounds ++ [round] }
 
-def agentLoop (stateless : Bool) (tc : ToolChoice) (rs : List Response) : Outcome :=
-  loop stateless tc.enforcement rs none false 0 { requests := [], executed := [], rejected := [], reason := "" }
+def agentLoop (cfg : Config) (rs : List Response) : Outcome := loop cfg rs {}
 
 end Rip.ToolLoop
